@@ -196,12 +196,28 @@ func genScenario(t *rapid.T) scenario {
 		}
 		for i, n := 0, rapid.IntRange(1, 4).Draw(t, "nr"); i < n; i++ {
 			sz := rapid.IntRange(1, 64).Draw(t, "rbuf")
-			if sc.flavour == 2 && sz < 40 {
-				sz = 40 // packet flavour: buffers hold a whole message
+			if sc.flavour == 2 && sz < 40 && rapid.Bool().Draw(t, "whole") {
+				sz = 40 // packet flavour: in half of the reads the buffer holds a whole message
 			}
 			dp.reads = append(dp.reads, opPlan{sz, genCtx()})
 		}
 		sc.dirs = append(sc.dirs, dp)
+	}
+	if rapid.IntRange(0, 5).Draw(t, "focus") == 0 {
+		// nothing but one operation whose context is cancelled by a task, its watcher and
+		// (for a write) at most one short read: few tasks, so the orders "cancelled and
+		// watcher finished before the wrapped call starts" are drawn often
+		sc.dirs = sc.dirs[:1]
+		if rapid.Bool().Draw(t, "focusWrite") {
+			sc.dirs[0].writes = []opPlan{{rapid.IntRange(1, 40).Draw(t, "fsize"), ctxCancelledByTask}}
+			sc.dirs[0].reads = nil
+			if rapid.Bool().Draw(t, "focusRead") {
+				sc.dirs[0].reads = []opPlan{{rapid.IntRange(1, 8).Draw(t, "fbuf"), ctxLive}}
+			}
+		} else {
+			sc.dirs[0].reads = []opPlan{{rapid.IntRange(1, 64).Draw(t, "fbuf"), ctxCancelledByTask}}
+			sc.dirs[0].writes = nil
+		}
 	}
 	return sc
 }
